@@ -16,14 +16,17 @@ for d in sorted(glob.glob(os.path.join(HERE, "seeded", "*"))):
 out = ["| seed | file | change (one line) | caught | quick runs (`<id>@<VERIF_SEED>`) | how |", "|----|----|----|----|----|----|"]
 out += ["| " + " | ".join(r) + " |" for r in rows]
 n = len(rows); c = sum(1 for r in rows if r[3] == "yes")
-first = sum(1 for r in rows if "caught as built" in r[5] or r[5].startswith("caught on"))
+def as_stood(note):
+    return "caught as built" in note or "caught as the check stood" in note or note.startswith("caught on")
+first = sum(1 for r in rows if as_stood(r[5]))
 r2 = [r for r in rows if r[5].startswith("round 2")]
-r2first = sum(1 for r in r2 if "caught as built" in r[5])
+r3 = [r for r in rows if r[5].startswith("round 3")]
 text = (f"{n} seeded changes are kept under `seeded/<id>/` (patch.diff, demo.py, meta.json with the seeding engineer's description and my evaluation). "
-        f"{c} are caught by the quick tier of the property's own check; {first} of them were caught by the checks as first built, the others only after "
-        "the exploration was widened as described in the last column (never by special-casing the seeded input). "
-        f"Round 2 ({len(r2)} seeds, produced by fresh engineers AFTER the widening of round 1 and told to avoid the kinds already delivered) is the less "
-        f"biased measurement: {r2first} of {len(r2)} were caught by the checks as they stood.\n\n" + "\n".join(out) + "\n")
+        f"{c} are caught by the quick tier of the property's own check; {first} of them were caught by the checks as they stood when the seed arrived, the "
+        "others only after the exploration was widened as described in the last column (never by special-casing the seeded input). "
+        f"Rounds 2 and 3 (produced by fresh engineers AFTER the widening of the previous round and told to avoid the kinds already delivered) are the "
+        f"less biased measurements: round 2: {sum(1 for r in r2 if as_stood(r[5]))} of {len(r2)} caught by the checks as they stood, "
+        f"round 3: {sum(1 for r in r3 if as_stood(r[5]))} of {len(r3)}.\n\n" + "\n".join(out) + "\n")
 p = os.path.join(HERE, "DESIGN.md")
 s = open(p).read()
 a, b = "<!-- SEEDED-TABLE-BEGIN -->", "<!-- SEEDED-TABLE-END -->"
